@@ -323,17 +323,17 @@ func (c *Ctx) assumeGlobalFacts(st *State, name string) {
 	if !c.globalFactsDone[key] {
 		c.globalFactsDone[key] = true
 		if gi.nonNil {
-			c.asserts = append(c.asserts, &Assertion{Seq: 0, Text: "(> " + v.S + " 0)"})
-			c.asserts = append(c.asserts, &Assertion{Seq: 0, Text: "(<= " + v.S + " " + c.heapGet(&State{heap: map[string]*Term{}}, c.allocName()).S + ")"})
+			c.asserts = append(c.asserts, &Assertion{Seq: 0, Always: true, Text: "(> " + v.S + " 0)"})
+			c.asserts = append(c.asserts, &Assertion{Seq: 0, Always: true, Text: "(<= " + v.S + " " + c.heapGet(&State{heap: map[string]*Term{}}, c.allocName()).S + ")"})
 		}
 		if gi.intVal != nil && v.Sort == SInt {
-			c.asserts = append(c.asserts, &Assertion{Seq: 0, Text: tEq(v, bigLit(gi.intVal)).S})
+			c.asserts = append(c.asserts, &Assertion{Seq: 0, Always: true, Text: tEq(v, bigLit(gi.intVal)).S})
 		}
 		if gi.boolVal != nil && v.Sort == SBool {
 			if *gi.boolVal {
-				c.asserts = append(c.asserts, &Assertion{Seq: 0, Text: v.S})
+				c.asserts = append(c.asserts, &Assertion{Seq: 0, Always: true, Text: v.S})
 			} else {
-				c.asserts = append(c.asserts, &Assertion{Seq: 0, Text: tNot(v).S})
+				c.asserts = append(c.asserts, &Assertion{Seq: 0, Always: true, Text: tNot(v).S})
 			}
 		}
 	}
@@ -342,7 +342,7 @@ func (c *Ctx) assumeGlobalFacts(st *State, name string) {
 		k := name + "|" + bv.S
 		if !c.globalFactsDone[k] {
 			c.globalFactsDone[k] = true
-			c.asserts = append(c.asserts, &Assertion{Seq: 0, Text: tEq(tSelect(bv, v), bigLit(gi.bigVal)).S})
+			c.asserts = append(c.asserts, &Assertion{Seq: 0, Always: true, Text: tEq(tSelect(bv, v), bigLit(gi.bigVal)).S})
 		}
 	}
 }
